@@ -285,6 +285,7 @@ impl Scenario for DynSum {
                 w.obs_in_use = true;
                 op_log("(warm start: KeepChild, Observe, Stabilise)".into());
             }
+            let mut stale_outside_done = false;
             for _ in 0..self.len {
                 #[derive(Debug, Clone)]
                 enum A {
@@ -299,6 +300,7 @@ impl Scenario for DynSum {
                     KeepChild,
                     AskStale,
                     AskInvalidate,
+                    StaleOutside,
                     Stabilise,
                 }
                 let mut acts = vec![];
@@ -339,6 +341,10 @@ impl Scenario for DynSum {
                 }
                 if !w.sh.want_invalidate.get() && !w.sh.did_invalidate.get() {
                     acts.push(A::AskInvalidate);
+                }
+                if !stale_outside_done && !w.invalidated && w.obs.is_some() && w.obs_in_use {
+                    // make_stale() called between two stabilises, on an expert node that is needed right now
+                    acts.push(A::StaleOutside);
                 }
                 if w.dirty {
                     acts.push(A::Stabilise);
@@ -402,11 +408,18 @@ impl Scenario for DynSum {
                     A::AskInvalidate => {
                         w.sh.want_invalidate.set(true);
                     }
+                    A::StaleOutside => {
+                        w.expert.make_stale();
+                        stale_outside_done = true;
+                        w.dirty = true;
+                        cover("make_stale-between-stabilises");
+                    }
                     A::Stabilise => {
                         w.sh.round.set(w.sh.round.get() + 1);
                         let round = w.sh.round.get();
                         let rec_before = w.sh.recomputes.borrow().len();
                         let stale_before = w.sh.did_stale.get();
+                        let obs_at_call = w.obs.as_ref().map(|_| ());
                         w.state.stabilise();
                         w.dirty = false;
                         if w.obs.is_some() {
@@ -419,6 +432,10 @@ impl Scenario for DynSum {
                             w.invalidated = true;
                         }
                         let recs: Vec<(u32, Vec<(usize, Option<SV>)>)> = w.sh.recomputes.borrow()[rec_before..].to_vec();
+                        if obs_at_call.is_none() && !recs.is_empty() {
+                            cover("stabilise-with-expert-unobserved");
+                            violation("C05/expert-node-ran-without-observer", format!("stabilise #{round}: the expert node's function ran although nothing observed it (or its only dependant) when stabilise was called"));
+                        }
                         if recs.len() > 1 {
                             violation("C14/recomputed-twice-in-one-stabilise", format!("the expert node ran {} times in stabilise #{round}", recs.len()));
                         }
